@@ -292,6 +292,31 @@ def r11_5(ctx):
                     ok = True
                 break
             name = nxt
+        # every assignment that can reach the loop -- not only the textually last one -- must be such a derivation:
+        # a conditional branch that re-uses a remembered order (or skips the sort) visits candidates in a stale order
+        name0 = Interp._source_name(lp.node.iter)
+        if ok and name0 is not None:
+            pm = parent_map(f.node)
+            loop_block_parent = pm.get(id(lp.node))
+            assigns0 = [a for a in ast.walk(f.node) if isinstance(a, ast.Assign) and any(isinstance(t, ast.Name) and t.id == name0 for t in a.targets) and a.lineno < lp.node.lineno]
+
+            def conditional(a):
+                g = pm.get(id(a))
+                while g is not None and g is not f.node:
+                    if isinstance(g, (ast.If, ast.Try, ast.While)) and not any(x is lp.node for x in ast.walk(g)):
+                        return True
+                    g = pm.get(id(g))
+                return False
+            uncond = [a for a in assigns0 if not conditional(a)]
+            last_unc = max(uncond, key=lambda a: a.lineno) if uncond else None
+            reaching = [a for a in assigns0 if conditional(a) and (last_unc is None or a.lineno > last_unc.lineno)]
+            for a in reaching:
+                v = a.value
+                is_sorter = isinstance(v, ast.Call) and isinstance(v.func, ast.Name) and v.func.id == sorter
+                derives = Interp._source_name(v) == name0 and isinstance(v, (ast.ListComp, ast.Call))
+                if not (is_sorter or derives):
+                    ok = False
+                    why = f"on one branch `{name0}` is taken from `{ast.unparse(v)[:50]}` instead of {sorter}(...) evaluated in this step"
         if not ok:
             ctx.violation(con, lp.loc if hasattr(lp, "loc") else f.loc(lp.node), f"allocation loop over {cls} candidates: {why}: candidates are not visited in priority order")
     ctx.require({TASK, WORKER, FACILITY, WORKPLACE} <= seen, f"allocation loops found only for {sorted(seen)}")
